@@ -449,6 +449,9 @@ struct NodeSlot {
     incarnation: u32,
     /// While `Some(t)`, the node is stalled (not polled) until global time `t`
     stalled_until: Option<u64>,
+    /// When set by somebody (e.g. the simulated disk at a crash point), the incarnation is
+    /// killed right after the poll during which it was set
+    kill_flag: Option<Rc<Cell<bool>>>,
 }
 
 #[derive(Clone, Debug)]
@@ -548,6 +551,7 @@ impl Exec {
             ready: Vec::new(),
             incarnation: 0,
             stalled_until: None,
+            kill_flag: None,
         });
         CLOCK.with(|c| {
             let mut clocks = c.clocks.borrow_mut();
@@ -556,6 +560,11 @@ impl Exec {
             }
         });
         (node, wake)
+    }
+
+    /// Kill `node` right after any poll during which `flag` got set
+    pub fn set_kill_flag(&mut self, node: usize, flag: Rc<Cell<bool>>) {
+        self.nodes[node].kill_flag = Some(flag);
     }
 
     pub fn wake_handle(&self, node: usize) -> Arc<NodeWake> {
@@ -823,6 +832,9 @@ impl Exec {
             trace("poll", node as u64, task as u64, &[]);
             self.poll_root(node, Cmd::Poll(task));
             self.last = Some((node, task));
+            if matches!(&self.nodes[node].kill_flag, Some(f) if f.get()) {
+                self.kill(node);
+            }
         }
     }
 
